@@ -235,7 +235,7 @@ def pp(p, paren="min"):
         out += f"{type_name(g['t'])} {g['n']};\n"
     for f in p["funcs"]:
         out += ("export " if f["exported"] else "") + f"function {f['name']}(" + \
-            ", ".join(f"{type_name(q['t'])} {q['n']}" for q in f["params"]) + f") -> {type_name(f['ret'])}\n" + ps(f["body"], 0, paren)
+            ", ".join(type_name(q['t']) if q['n'].startswith("unnamed_") else f"{type_name(q['t'])} {q['n']}" for q in f["params"]) + f") -> {type_name(f['ret'])}\n" + ps(f["body"], 0, paren)
     return out
 
 
